@@ -171,6 +171,9 @@ fn cmd_exec(args: &[String]) -> i32 {
 fn cmd_minimize(args: &[String]) -> i32 {
     let cf = load_case(&args[0]);
     let out = arg(args, "--out").expect("--out");
+    if let Some(d) = arg(args, "--tmp") {
+        *minimize::ISO_DIR.lock().unwrap() = Some(d.to_string());
+    }
     let ctx = Ctx { k: w1::measure_consts().k, focus: focus_of(&cf.property) };
     let min = minimize::minimize(&cf.case, &cf.signature, &ctx);
     let found_by = arg(args, "--found-by").and_then(|s| serde_json::from_str(s).ok()).unwrap_or(cf.found_by.clone());
